@@ -159,3 +159,5 @@ func verifResetGlobals() {
 	atlasLogStartDate = 0
 	atlasLogEndDate = 0
 }
+
+func verifItoa(i int) string { return fmt.Sprint(i) }
